@@ -191,6 +191,9 @@ def _templates():
     # D64: on a one-partition frame the predicate operands count as broadcasts
     add("partitions-stacked-filters", [S("v1", "filter_pred", ["A"], pred=P("ne", "s", "b")), S("v2", "filter_pred", ["v1"], pred=P("le", "i", 5)), S("v3", "partitions", ["v2"], sel=[0, 0])], tags=("single",))
     add("partitions-filter-assign", [S("v1", "filter_pred", ["A"], pred=P("gt", "g", 0)), S("v2", "assign", ["v1"], items=[["z", {"a": "f", "op": "add", "b": "g"}]]), S("v3", "partitions", ["v2"], sel=[0])], tags=("single",))
+    # D82: reductions that relabel their result (mode) on a frame whose labels are far from 0
+    add("mode-after-set-index", [S("v1", "assign", ["A"], items=[["z", {"a": "rid", "op": "add", "c": 10}]]), S("v2", "set_index", ["v1"], col="z", drop=True), S("v3", "col", ["v2"], col="k"), S("v4", "mode", ["v3"])])
+    add("value-counts-after-set-index", [S("v1", "assign", ["A"], items=[["z", {"a": "rid", "op": "add", "c": 10}]]), S("v2", "set_index", ["v1"], col="z", drop=True), S("v3", "col", ["v2"], col="k"), S("v4", "value_counts", ["v3"], split_out=1)])
     # D73: index / len of stacked filters (frame with repeating index labels: INDEXES_A[1])
     add("stacked-filters-index", [S("v1", "filter_pred", ["A"], pred=P("ne", "s", "b")), S("v2", "filter_pred", ["v1"], pred=P("le", "i", 5)), S("v3", "index_of", ["v2"])])
     add("stacked-filters-index-frame", [S("v1", "filter_pred", ["A"], pred=P("gt", "g", 0)), S("v2", "filter_pred", ["v1"], pred=P("ge", "k", 1)), S("v3", "index_to", ["v2"], how="to_frame")])
